@@ -784,3 +784,22 @@ func (w *World) tokenConstNames() map[string][]string {
 	}
 	return out
 }
+
+// evalMethodsOfFunc: non-empty when f is an evaluator of an AST node (one AST-typed parameter, (interface{}, error) results).
+func (w *World) evalMethodsOfFunc(f *FuncInfo) []string {
+	sig := f.Obj.Type().(*types.Signature)
+	if sig.Params().Len() != 1 || sig.Results().Len() != 2 || !isErrorType(sig.Results().At(1).Type()) {
+		return nil
+	}
+	if _, isIface := sig.Results().At(0).Type().Underlying().(*types.Interface); !isIface {
+		return nil
+	}
+	t := sig.Params().At(0).Type()
+	if pt, ok := t.(*types.Pointer); ok {
+		t = pt.Elem()
+	}
+	if declaredIn(t, astPath) {
+		return []string{typeStr(t)}
+	}
+	return nil
+}
